@@ -661,7 +661,7 @@ def compute_online_moments(
         min_val, max_val = moments[ichan]["min"], moments[ichan]["max"]
 
         for isamp in range(nsamps):
-            val = array[isamp * nchans + ichan]
+            val = np.float32(array[isamp * nchans + ichan])
             m1, m2, m3, m4, count = update_moments(val, m1, m2, m3, m4, count)
             min_val = min(min_val, val)
             max_val = max(max_val, val)
@@ -696,7 +696,7 @@ def compute_online_moments_basic(
         min_val, max_val = moments[ichan]["min"], moments[ichan]["max"]
 
         for isamp in range(nsamps):
-            val = array[isamp * nchans + ichan]
+            val = np.float32(array[isamp * nchans + ichan])
             m1, m2, count = update_moments_basic(val, m1, m2, count)
             min_val = min(min_val, val)
             max_val = max(max_val, val)
